@@ -15,7 +15,7 @@ from native.bounded._common import FLAGS, Checker
 BOUND = ("registry: 24 (x4 thorough) generated circuits x flags rotating, operator chains of length <= 3 (integrate, conjugate, multiply(c,c), "
          "differentiate) applied through PipelineContext methods and through the module-level wrappers; context histories: 300 (x5) random well-bracketed "
          "programs of depth <= 4 and length <= 8 over distinct context objects (sequential re-use of an exited context included), each block may raise; "
-         "all DAGs of operator pipelines with <= 4 circuits for the operand-before-derived order")
+         "operator chains for the operand-before-derived order, plus triangle pipelines multiply(A, conj(A)) / multiply(conj(A), A) compiled directly in a fresh context")
 RULE = "one case = (history or circuit index, clause); distinct by the generated program"
 
 
@@ -112,4 +112,29 @@ def run(tier, seed):
             ck.true("operands_compiled_once", base, all(ctx2.is_compiled(s) for s in order) and ctx2.compile(last) is t2
                     and all(ctx2.compile(s) is ctx2.get_compiled_circuit(s) for s in order), "an operand was not registered / re-compiled")
         ck.guarded("registry", base, go)
+    # ---------------- pipelines that are not chains: a circuit that is an operand of the root AND of another operand of the root
+    for n, it in enumerate(items[:8]):
+        sc, d = it["circuit"], it["desc"]
+        if not sc.is_structured_decomposable:
+            continue
+        fold, opt = FLAGS[n % 4]
+        base = {"circuit": d["index"], "seed": d["seed"], "kind": d["kind"], "fold": fold, "optimize": opt, "pipeline": "triangle"}
+
+        def go3():
+            try:
+                cj = SF.conjugate(sc)
+                roots = [SF.multiply(sc, cj), SF.multiply(cj, sc)]
+            except Exception as e:  # a refusal of the symbolic operator is not the subject here
+                ck.res.count(f"triangle not buildable ({type(e).__name__})")
+                return
+            for which, root in enumerate(roots):
+                case = dict(base, root_operands="A,conj(A)" if which == 0 else "conj(A),A")
+                order = list(pipeline_topological_ordering([root]))
+                pos = {id(s): i for i, s in enumerate(order)}
+                ck.true("operands_before_derived", case, len(pos) == len(order) == 3 and all(pos[id(o)] < pos[id(s)] for s in order if s.operation is not None for o in s.operation.operands),
+                        "pipeline order lists a derived circuit before an operand, or a circuit twice")
+                ctx3 = PipelineContext(backend="torch", semiring="complex-lse-sum" if d["kind"] in ("embedding", "polynomial") else "sum-product", fold=fold, optimize=opt)
+                t3 = ctx3.compile(root)                      # compiled directly: the operands are compiled on the way, operands first
+                ck.true("operands_compiled_once", case, all(ctx3.is_compiled(s) for s in order) and ctx3.compile(root) is t3, "an operand was not registered / re-compiled")
+        ck.guarded("registry_triangle", base, go3)
     return ck.res
